@@ -106,11 +106,38 @@ fn prop_stats(iv: &[Option<(f64, f64)>], n: usize, level: f64, grid: &[f64], pmf
 /// quantile ranks for every q of the grid: (lo, hi) 0-based ranks; None = error
 fn impl_ranks(n: usize, q: f64, kind: Kind, level: f64, s: &mut Sink) -> Option<(Option<usize>, Option<usize>)> {
     s.calls += 1;
-    match quantile::ci_indices(conf(kind, level), n, q) {
+    let by_index = match quantile::ci_indices(conf(kind, level), n, q) {
         Ok(Interval::TwoSided(a, b)) => Some((Some(a), Some(b))),
         Ok(Interval::UpperOneSided(a)) => Some((Some(a), None)),
         Ok(Interval::LowerOneSided(b)) => Some((None, Some(b))),
         Err(_) => None,
+    };
+    // what a user gets from data: a scrambled sample whose values are their own ranks
+    // (0..n), so that the returned elements are the ranks actually used; the coverage is
+    // judged on those
+    if n <= 6000 {
+        let m = [7919usize, 7907, 104_729, 13, 1].into_iter().find(|m| gcd(*m, n) == 1).unwrap();
+        let data: Vec<u32> = (0..n).map(|i| ((i * m + 3) % n) as u32).collect();
+        s.calls += 1;
+        let by_data = match mc::catch(std::panic::AssertUnwindSafe(|| quantile::ci(conf(kind, level), &data, q))) {
+            Ok(Ok(Interval::TwoSided(a, b))) => Some((Some(a as usize), Some(b as usize))),
+            Ok(Ok(Interval::UpperOneSided(a))) => Some((Some(a as usize), None)),
+            Ok(Ok(Interval::LowerOneSided(b))) => Some((None, Some(b as usize))),
+            _ => None,
+        };
+        if by_data != by_index {
+            s.violation(format!("quantile/data-entry-point-uses-other-ranks/{}", kind.name()), format!("n={n} q={q} {} {level}: quantile::ci on a scrambled sample of the values 0..n returns the order statistics {by_data:?}, ci_indices designates {by_index:?}", kind.name()), json!({"check":"quantile","n":n,"q":q,"kind":kind,"level":level}));
+        }
+        return by_data;
+    }
+    by_index
+}
+
+fn gcd(a: usize, b: usize) -> usize {
+    if b == 0 {
+        a
+    } else {
+        gcd(b, a % b)
     }
 }
 
@@ -479,7 +506,7 @@ fn main() {
     s.sample(json!({"check":"proportion","n":100,"kind":"Two","level":0.95,"what":"C(n,p) = sum_k pmf(k;n,p) [lo_k <= p <= hi_k] over all 101 outcomes, for every p of the grid in [0.1, 0.9]"}));
     s.sample(json!({"check":"quantile","n":200,"kind":"Upper","level":0.9,"what":"P(B >= lo+1), B~Bin(200,q), ranks from ci_indices, q = i/193 with nq, n(1-q) >= 10"}));
     rep.note("slack_table", json!({"PROP_POINT":PROP_POINT,"PROP_AVG":PROP_AVG,"QUANT_ATOMS":QUANT_ATOMS,"QUANT_AVG":QUANT_AVG,"levels":LEVELS,"kinds":["two-sided","upper","lower"]}));
-    rep.rule = format!("proportion: n in {:?}, all outcomes k=0..n through proportion::ci and through ci_wilson_ratio(n, k/n) (Err = no cover), {} p values in [10/n, 1-10/n], levels {:?} x 3 kinds, plus the population 2^32+2^20+3 at p in {{0.3, 0.9}} summed over all outcomes within 9.5 sd of np; quantile: n in {:?}, q = i/193 with nq,n(1-q)>=10 and the extreme grid q n = 1/2..9 1/2 (coverage of whatever is returned), ranks from quantile::ci_indices; coverage is an exact sum over all outcomes; distinct by (n, kind, level, coverage statistic)", prop_ns(tier), 2001, LEVELS, quant_ns(tier));
+    rep.rule = format!("proportion: n in {:?}, all outcomes k=0..n through proportion::ci and through ci_wilson_ratio(n, k/n) (Err = no cover), {} p values in [10/n, 1-10/n], levels {:?} x 3 kinds, plus the population 2^32+2^20+3 at p in {{0.3, 0.9}} summed over all outcomes within 9.5 sd of np; quantile: n in {:?}, q = i/193 with nq,n(1-q)>=10 and the extreme grid q n = 1/2..9 1/2 (coverage of whatever is returned), ranks from quantile::ci_indices and, for n <= 6000, from quantile::ci on a scrambled sample whose values are their own ranks (both must designate the same order statistics; the coverage is judged on what the data entry point returns); coverage is an exact sum over all outcomes; distinct by (n, kind, level, coverage statistic)", prop_ns(tier), 2001, LEVELS, quant_ns(tier));
     rep.assume("slack constants are properties of the textbook Wilson method computed by the oracle (c12 calibrate) with +25% margin; they are frozen in c12_*.in and never derived from the implementation");
     rep.assume("binomial pmf from the oracle's recurrence, self-tested against mpmath");
     rep.require(s.distinct() >= 20, "fewer than 20 distinct coverage statistics: vacuous");
